@@ -829,6 +829,12 @@ func c20Cases(c *Ctx) []*c20Case {
 		}
 		add(&c20Case{Key: "refusal/tokens-not-for-every-peer/second-peer-missing/self-src=" + src, Family: "tokens-not-for-every-peer", Source: "yaml", Expect: "refuse",
 			Spec: mk("peers:\n  - rpc-address: 127.0.0.2\n    tokens: [\"100\"]\n  - rpc-address: 127.0.0.3\n"), Detail: "tokens for this proxy and peer 1, none for peer 2"})
+		add(&c20Case{Key: "refusal/tokens-not-for-every-peer/first-of-two-missing/self-src=" + src, Family: "tokens-not-for-every-peer", Source: "yaml", Expect: "refuse",
+			Spec: mk("peers:\n  - rpc-address: 127.0.0.2\n  - rpc-address: 127.0.0.3\n    tokens: [\"100\"]\n"), Detail: "tokens for this proxy and the last peer, none for the first peer"})
+		add(&c20Case{Key: "refusal/tokens-not-for-every-peer/middle-of-three-missing/self-src=" + src, Family: "tokens-not-for-every-peer", Source: "yaml", Expect: "refuse",
+			Spec: mk("peers:\n  - rpc-address: 127.0.0.2\n    tokens: [\"100\"]\n  - rpc-address: 127.0.0.3\n  - rpc-address: 127.0.0.4\n    tokens: [\"300\"]\n"), Detail: "tokens for this proxy and peers 1 and 3, none for peer 2"})
+		add(&c20Case{Key: "refusal/tokens-not-for-every-peer/all-but-last-of-four-missing/self-src=" + src, Family: "tokens-not-for-every-peer", Source: "yaml", Expect: "refuse",
+			Spec: mk("peers:\n  - rpc-address: 127.0.0.2\n  - rpc-address: 127.0.0.3\n  - rpc-address: 127.0.0.4\n  - rpc-address: 127.0.0.5\n    tokens: [\"9\"]\n"), Detail: "tokens for this proxy and the last of four peers only"})
 		add(&c20Case{Key: "refusal/tokens-not-for-every-peer/only-peer-missing/self-src=" + src, Family: "tokens-not-for-every-peer", Source: "yaml", Expect: "refuse",
 			Spec: mk("peers:\n  - rpc-address: 127.0.0.2\n"), Detail: "tokens for this proxy, none for its only peer"})
 		add(&c20Case{Key: "refusal/tokens-not-for-every-peer/empty-list/self-src=" + src, Family: "tokens-not-for-every-peer", Source: "yaml", Expect: "refuse",
